@@ -141,11 +141,12 @@ func (m *model) String() string {
 }
 
 type st struct {
-	c     cache.TTLCache
-	m     *model
-	nset  map[string]int
-	t0    int64
-	ticks int64
+	c      cache.TTLCache
+	m      *model
+	nset   map[string]int
+	t0     int64
+	ticks  int64
+	shared []byte // one caller-owned slice passed to several Sets (the cache must not write into it)
 }
 
 func (s *st) sync() { clock = s.t0 + s.ticks }
@@ -263,6 +264,23 @@ func ops(keys []string, sets []setOpt, gets []getOpt) []seq.Op[*st] {
 				}
 			}})
 		}
+		// the same caller-owned slice is stored under several keys: overwriting one key later must not
+		// change what another key returns, nor the caller's slice
+		o = append(o, seq.Op[*st]{Name: fmt.Sprintf("SetSharedSlice(%s)", k), Step: func(s *st) (string, string) {
+			s.sync()
+			if s.shared == nil {
+				s.shared = append(make([]byte, 0, 16), "SHARED"...)
+			}
+			got := errName(s.c.Set(bg, k, s.shared))
+			s.m.expire()
+			mk := s.m.keys[k]
+			s.m.mention(k)
+			if got != "ok" {
+				return got, fmt.Sprintf("Set(%s, shared slice) returned %s", k, got)
+			}
+			*mk = mkey{live: true, val: "SHARED", dls: []int64{s.m.dl(s.m.defTTL)}}
+			return got, ""
+		}})
 		for _, g := range gets {
 			g := g
 			o = append(o, seq.Op[*st]{Name: fmt.Sprintf("Get(%s,%s)", k, g.name), Step: func(s *st) (string, string) {
@@ -336,6 +354,13 @@ func ops(keys []string, sets []setOpt, gets []getOpt) []seq.Op[*st] {
 		return "", ""
 	}})
 	return o
+}
+
+func afterShared(s *st) string {
+	if s.shared != nil && string(s.shared) != "SHARED" {
+		return fmt.Sprintf("the cache wrote into a slice the caller passed to Set: it now reads %q", s.shared)
+	}
+	return ""
 }
 
 // atEnd: final probe of all keys on a replayed copy: hits carry the latest value, at most `size`
@@ -659,30 +684,33 @@ func main() {
 	r := ev.Start("C05")
 	r.Rule("breadth-first over all sequences of Set (7 option combinations) / Get (plain, remove-after-get, update-ttl 0/3) / Remove / Clear / clock advance over keys a,b,c on the real in-memory cache for size 0,1,2,3 x default ttl 0/3 under a virtual clock; states merged on (complete implementation state dump with deadlines relative to the clock, reference state); every call's answer and a final probe of all keys on a replayed copy are checked against an 'expired = absent' reference with the one-sided eviction clause; the same histories over two keys on the in-memory and the redis-backed cache (in-memory fake redis.Cmdable with real time.Duration semantics) must agree on every hit/miss, value and already-exists answer; distinct = (op, answer) pairs")
 	r.Assume("ttls are odd and the clock advances by 2 s, so no reading falls exactly on a deadline", "eviction is checked one-sidedly: a live key may be missing only if >= size other distinct keys were mentioned since it was last set or read", "fake redis: SETNX/SET[KEEPTTL]/GET/GETDEL/EXPIRE/DEL/SCAN with expiry at now+duration")
-	restore := cache.VerifSetNow(func() int64 { return clock })
-	defer restore()
+	// the package clock is process-global: every specification runs in its own worker process
+	type job struct {
+		name string
+		run  func()
+	}
+	var jobs []job
 	keys := []string{"a", "b", "c"}
 	for _, size := range []int{0, 1, 2, 3} {
 		for _, def := range []int64{0, 3} {
 			size, def := size, def
 			name := fmt.Sprintf("ttlmem/size=%d/defaultTTL=%d", size, def)
-			if !r.Want(name) {
-				continue
-			}
-			seq.Explore(r, &seq.Spec[*st]{Name: name, Ops: ops(keys, setOpts, getOpts), Depth: r.Pick(5, 7), Sig: sig, AtEnd: atEnd, MaxViolations: 12,
-				New: func() *st {
-					clock = 100
-					return &st{c: cache.NewTTLMemCache(size, def), m: newModel(size, def), nset: map[string]int{}, t0: 100}
-				},
-				Key: func(s *st) string {
-					s.sync()
-					s.m.expire()
-					return cache.VerifTTLDump(s.c) + "||" + s.m.String() + fmt.Sprint(s.nset["a"]%3, s.nset["b"]%3, s.nset["c"]%3)
-				}})
+			jobs = append(jobs, job{name, func() {
+				seq.Explore(r, &seq.Spec[*st]{Name: name, Ops: ops(keys, setOpts, getOpts), Depth: r.Pick(6, 8), Sig: sig, AtEnd: atEnd, After: afterShared, MaxViolations: 12,
+					New: func() *st {
+						clock = 100
+						return &st{c: cache.NewTTLMemCache(size, def), m: newModel(size, def), nset: map[string]int{}, t0: 100}
+					},
+					Key: func(s *st) string {
+						s.sync()
+						s.m.expire()
+						return cache.VerifTTLDump(s.c) + "||" + s.m.String() + fmt.Sprint(s.nset["a"]%3, s.nset["b"]%3, s.nset["c"]%3)
+					}})
+			}})
 		}
 	}
-	if r.Want("redis-agreement") {
-		seq.Explore(r, &seq.Spec[*duo]{Name: "redis-agreement/defaultTTL=3", Ops: duoOps(), Depth: r.Pick(6, 8), AtEnd: duoEnd, After: duoAfter, Key: duoKey, MaxViolations: 12,
+	jobs = append(jobs, job{"redis-agreement", func() {
+		seq.Explore(r, &seq.Spec[*duo]{Name: "redis-agreement/defaultTTL=3", Ops: duoOps(), Depth: r.Pick(7, 9), AtEnd: duoEnd, After: duoAfter, Key: duoKey, MaxViolations: 12,
 			Sig: func(path []string, msg string) string {
 				op := path[len(path)-1]
 				op = strings.NewReplacer("(a,", "(k,", "(b,", "(k,", "(a)", "(k)", "(b)", "(k)").Replace(op)
@@ -693,6 +721,21 @@ func main() {
 				f := &fakeRedis{data: map[string]*rent{}}
 				return &duo{mem: cache.NewTTLMemCache(1000, 3), rds: cache.NewTTLRdsCache(f, "p:", 3), fake: f}
 			}})
+	}})
+	if r.Shard != "" {
+		restore := cache.VerifSetNow(func() int64 { return clock })
+		defer restore()
+		var k int
+		fmt.Sscanf(r.Shard, "%d", &k)
+		if k >= 0 && k < len(jobs) && r.Want(jobs[k].name) {
+			jobs[k].run()
+		}
+		r.EmitWorker()
+		return
+	}
+	if nd := mc.Drive(r, os.Args[0], len(jobs)); nd != "" && r.NViolations() == 0 {
+		fmt.Println("worker failure (machinery error, not a verdict):", nd)
+		r.Finish0(2)
 	}
 	if r.Only == "" {
 		if nd := mc.DriveBin(r, os.Getenv("VERIF_SCHED_BIN")); nd != "" && r.NViolations() == 0 {
